@@ -170,9 +170,14 @@ impl Sut {
         }
     }
 
-    pub fn invalidate_if(&mut self, p: Pred) {
+    pub fn invalidate_if(&mut self, p: Pred, reg: &Arc<Registry>) {
         match self {
-            Sut::Unsync(c) => c.invalidate_entries_if(move |k, v| p.eval(k.k, v.id, v.weight)),
+            Sut::Unsync(c) => c.invalidate_entries_if(move |k, v| {
+                if reg.tick_pred() {
+                    panic!("{}", INJECTED_PANIC);
+                }
+                p.eval(k.k, v.id, v.weight)
+            }),
             Sut::Sync(_) => {}
         }
     }
